@@ -153,6 +153,9 @@ def run(chk, prog):
     dms = [t for t in A.walk(mainf["body"]) if t.get("k") == "CallExpr" and "make_unique" in (t.get("callee") or "") and "DriftMap" in ((t.get("callee_sig") or "") + (t.get("type") or ""))]
     A.require(len(dms) == 1, "main: construction of the DriftMap not found")
     dargs = [CA.plain_var(x) for x in dms[0]["args"]]
+    if len(dargs) < 3 or any(d_ is None for d_ in dargs[:3]):
+        raise AnalysisBroken("main: the grids / slip vector handed to the DriftMap are not plain variables (%s): the wiring is not judged"
+                             % [A.show(x)[:30] for x in dms[0]["args"][:3]])
     chk.check(len(dargs) >= 3 and dargs[2] is not None and dargs[2]["decl"] == sl["decl"] and dargs[0]["name"] == "grid_t1" and dargs[1]["name"] == "grid_t3", "R2",
               A.loc(mainf, dms[0]), "main: the DriftMap receives the slip vector (and maps grid_t1 -> grid_t3)", "main:drift-args")
     # delta0 == delta1
@@ -260,6 +263,12 @@ def run(chk, prog):
     from . import dimrules
     nrd = dimrules.run(chk, prog, "RD")
     chk.floor("RD-requirements", nrd or 0, 2)
+    # ---- R8: "the configured angle": the step counts main divides 2*pi by are the configured ones --------------------------------------------------
+    # (the getters hand out the bound option fields without a value-changing conversion: decided under C20 R7; re-evaluated here for the
+    # options the angle is computed from)
+    from .common import reeval
+    reeval(chk, prog, "C20", lambda i: i["rule"] == "R7" and any(t_ in i["what"] for t_ in ("getStepsPerTsync", "getStepsPerTrev", "steps_per_T", "getNRotations", "getSyncFreq", "getAlpha0")),
+           "R8", "R8-configured-steps", 2)
     chk.notes.append("C03: linearised one-step kick-drift map read off the folded offset formulas: slopes, coupling product -a^2+O(a^4), sense, "
                      "single angle variable, equal cell sizes, centres at the zero bins. NOT decided: closure over a period, splitting-error size, "
                      "sinusoidal RF beyond the sign of its slope, DynamicRFKickMap (C19).")
